@@ -445,6 +445,39 @@ example : AllAdmissible len1 12 falsy1 (fresh [⟨0, 2⟩, ⟨2, 5⟩])
      .setStart 1, .qLength, .setSlice 0 1 [⟨1, 3⟩, ⟨3, 4⟩], .delItem 1, .setEnd 0, .qEnd] := by
   decide +kernel
 
+/-! ## a path and its shallow copy do not interfere (model of `Path.__copy__` as repaired) -/
+section twin
+variable {P L A : Type} [DecidableEq P] [DecidableEq A] [Add L] [Sub L] [Mul L] [Div L] [LT L] [LE L] [DecidableLT L]
+  [DecidableLE L] [DecidableEq L] [OfNat L 0] [OfNat L 1]
+
+/-- **Non-interference of a path and its copy**: in any interleaved history on the pair, what the original returns and
+the state it ends in are exactly those of its own operations run alone (and likewise for the copy): nothing done to one
+object is visible through the other. -/
+theorem twin_noninterference (len : A → Seg P → L) (dflt : A) (falsy : P → Bool) (ops : List (Who × Op P L A))
+    (s : PState P L A × PState P L A) :
+    let r := runTwin len dflt falsy s ops
+    let mine := fun (w : Who) => (ops.filter (fun x => x.1 = w)).map (·.2)
+    (r.1.1 = (run len dflt falsy s.1 (mine .orig)).1 ∧
+     (r.2.filter (fun x => x.1 = Who.orig)).map (·.2) = (run len dflt falsy s.1 (mine .orig)).2) ∧
+    (r.1.2 = (run len dflt falsy s.2 (mine .twin)).1 ∧
+     (r.2.filter (fun x => x.1 = Who.twin)).map (·.2) = (run len dflt falsy s.2 (mine .twin)).2) := by
+  induction ops generalizing s with
+  | nil => simp [runTwin, run]
+  | cons x rest ih =>
+    obtain ⟨w, op⟩ := x
+    cases w with
+    | orig =>
+      have := ih (stepTwin len dflt falsy s .orig op).1
+      simp only [runTwin, stepTwin, run, List.filter_cons, List.map_cons] at this ⊢
+      simp only [decide_true, if_true, List.map_cons, reduceCtorEq, decide_false] at this ⊢
+      simpa [run] using this
+    | twin =>
+      have := ih (stepTwin len dflt falsy s .twin op).1
+      simp only [runTwin, stepTwin, run, List.filter_cons, List.map_cons] at this ⊢
+      simp only [decide_true, if_true, List.map_cons, reduceCtorEq, decide_false] at this ⊢
+      simpa [run] using this
+end twin
+
 /-! ## CubicBezier's length cache: every answer meets the accuracy that was asked for -/
 section cubic
 variable {B E D V : Type} [DecidableEq B] [LE E] [DecidableLE E] [LE D] [DecidableLE D]
